@@ -28,7 +28,9 @@ CompBases == <<
   \* comments and metadata text with non-ASCII characters next to the characters XML escapes ("<CM>" is expanded by the
   \* writers to a comment mixing them): the valid file and every fault that leaves the text alone are rendered
   << <<"#META Nota: x <CM>">>, <<"0", "CONSUMO", "ILU", "ELECTRICIDAD", "4", "6 <CM>">>, <<"0", "PRODUCCION", "EL_INSITU", "9", "1 <CM>">>,
-     <<"DEMANDA", "ACS", "3", "3 <CM>">> >> >>
+     <<"DEMANDA", "ACS", "3", "3 <CM>">> >>,
+  \* a file of one data line: truncating it leaves a components file without any time step
+  << <<"4", "CONSUMO", "CAL", "ELECTRICIDAD", "3", "1">> >> >>
 FactorBases == <<
   << <<"ELECTRICIDAD", "RED", "SUMINISTRO", "A", "0.5", "2.0", "0.4">>, <<"GASNATURAL", "RED", "SUMINISTRO", "A", "0.0", "1.1", "0.2">> >>,
   << <<"#META CTE_FUENTE: x">>, <<"ELECTRICIDAD", "RED", "SUMINISTRO", "A", "0.5", "2.0", "0.4">>, <<"ELECTRICIDAD", "INSITU", "A_RED", "B", "0.1", "0.2", "0.3">>,
